@@ -6,6 +6,7 @@ import SuironVerif.Model.Codec
 import SuironVerif.Model.Native
 import SuironVerif.Spec.Machine
 import SuironVerif.Model.Solve
+import SuironVerif.Model.Reader
 namespace Suiron.Driver
 open Suiron.Codec
 
@@ -259,5 +260,106 @@ def handleMkList (proper : Bool) (toks : List String) : String :=
       | none => "decode-error"
     | none => "decode-error"
   | _ => "decode-error"
+
+
+/-! ### parser suites -/
+
+def PFUEL : Nat := 4000
+
+def zeroIds : Term → Term
+  | t => (go t)
+where
+  go : Term → Term
+    | .var _ n => .var 0 n
+    | .cplx args => .cplx (goL args)
+    | .cons t n c tv => .cons (go t) (go n) c tv
+    | .func f args => .func f (goL args)
+    | t => t
+  goL : TermList → TermList
+    | .nil => .nil
+    | .cons h t => .cons (go h) (goL t)
+
+inductive Parsed where
+  | term (t : Term) | goal (g : Goal) | rule (r : Rule) | err | panic | oof
+
+def runEntry (entry : String) (s : Parse.Text) : Parsed :=
+  let po := Native.pops
+  let wrapT : Res Term → Parsed := fun r => match r with | .ok t => .term t | .fail => .err | .panic => .panic | .oof => .oof
+  let wrapG : Res Goal → Parsed := fun r => match r with | .ok t => .goal t | .fail => .err | .panic => .panic | .oof => .oof
+  match entry with
+  | "term" => wrapT (Parse.parseTerm po PFUEL s)
+  | "list" => wrapT (Parse.parseLinkedList po PFUEL s)
+  | "complex" => wrapT (Parse.parseComplex po PFUEL s)
+  | "function" => wrapT (Parse.parseFunction po PFUEL s)
+  | "query" => wrapG (Parse.parseQuery po PFUEL s)
+  | "subgoal" => wrapG (Parse.parseSubgoal po PFUEL s)
+  | "goal" => wrapG (Parse.generateGoal po PFUEL s)
+  | _ => match Parse.parseRule po PFUEL s with | .ok r => .rule r | .fail => .err | .panic => .panic | .oof => .oof
+
+def showParsed : Parsed → String
+  | .term t => "P " ++ hex (Term.show Native.showF64 t)
+  | .goal g => (match Parse.showGoal Native.showF64 g with | .ok s => "P " ++ hex s | _ => "P panic")
+  | .rule r => (match Parse.showRule Native.showF64 r with | .ok s => "P " ++ hex s | _ => "P panic")
+  | _ => ""
+
+def dumpParsed : Parsed → String
+  | .term t => "ok " ++ encTerm t
+  | .goal g => "ok " ++ encGoal g
+  | .rule r => "ok " ++ encRule r
+  | .err => "err"
+  | .panic => "panic"
+  | .oof => "oof"
+
+def handleParse (toks : List String) : String :=
+  match toks with
+  | [entry] => let p := runEntry entry []; dumpParsed p ++ (match p with | .err | .panic | .oof => "" | _ => " " ++ showParsed p)
+  | [entry, h] =>
+    match unhex h with
+    | some s =>
+      let p := runEntry entry s.toList
+      dumpParsed p ++ (match p with | .err | .panic | .oof => "" | _ => " " ++ showParsed p)
+    | none => "decode-error"
+  | _ => "decode-error"
+
+def handleContexts (toks : List String) : String :=
+  let text : Option String := match toks with | [] => some "" | [h] => unhex h | _ => none
+  match text with
+  | none => "decode-error"
+  | some t =>
+    let s := t.toList
+    let enc (t : Term) : String := "ok " ++ encTerm (zeroIds t)
+    let alone := match runEntry "term" s with | .term t => enc t | .err => "err" | .panic => "panic" | _ => "other"
+    let inComplex := match runEntry "complex" ("f(".toList ++ s ++ [')']) with
+      | .term (.cplx (.cons _ (.cons a .nil))) => enc a | .err => "err" | .panic => "panic" | _ => "other"
+    let inList := match runEntry "list" (['['] ++ s ++ [']']) with
+      | .term (.cons t _ _ _) => enc t | .err => "err" | .panic => "panic" | _ => "other"
+    let inInfix := match runEntry "subgoal" (s ++ " = x".toList) with
+      | .goal (.bip _ (some (.cons a (.cons _ .nil)))) => enc a | .err => "err" | .panic => "panic" | _ => "other"
+    let inQuery := match runEntry "query" ("q(".toList ++ s ++ [')']) with
+      | .goal (.call (.cplx (.cons _ (.cons a .nil)))) => enc a | .err => "err" | .panic => "panic" | _ => "other"
+    String.intercalate " | " [alone, inComplex, inList, inInfix, inQuery]
+
+/-- rules grouped by key, keys sorted (what `format_kb` lists) -/
+def groupRules (rules : List Rule) : Option (List (String × List Rule)) :=
+  match buildKB rules with
+  | .ok kb => some (kb.toArray.qsort (fun a b => a.1 < b.1)).toList
+  | _ => none
+
+def handleReader (toks : List String) : String :=
+  let text : Option String := match toks with | [] => some "" | [h] => unhex h | _ => none
+  match text with
+  | none => "decode-error"
+  | some t =>
+    let file := t.toList
+    let texts := match Parse.readRules file with
+      | .ok ts => "texts " ++ toString ts.length ++ String.join (ts.map fun x => " " ++ hex (String.ofList x) ++ ".")
+      | .fail => "texts err" | .panic => "texts panic" | .oof => "texts oof"
+    let kb := match Parse.loadKB (Parse.parseRule Native.pops PFUEL) file with
+      | .ok rules =>
+        (match groupRules rules with
+         | some groups => "kb " ++ toString rules.length ++ String.join (groups.map fun g => String.join (g.2.map fun r => " " ++ encRule r))
+         | none => "kb panic")
+      | .fail => "kb err" | .panic => "kb panic" | .oof => "kb oof"
+    texts ++ " ; " ++ kb
 
 end Suiron.Driver
